@@ -140,6 +140,14 @@ impl Connection {
     }
 }
 
+#[cfg(bmwill_anemo_verif)]
+impl Connection {
+    /// Verification hook: why the underlying QUIC connection was closed, if it was.
+    pub(crate) fn verif_close_reason(&self) -> Option<ConnectionError> {
+        self.inner.close_reason()
+    }
+}
+
 impl fmt::Debug for Connection {
     fn fmt(&self, f: &mut fmt::Formatter<'_>) -> fmt::Result {
         f.debug_struct("Connection")
